@@ -57,10 +57,9 @@ type gen struct {
 	used    map[string]bool // signers used in the block under construction
 	govIDs  []uint64        // proposals submitted by the generator
 	partial bool            // answer open requests / signings only partly (the block before the export)
-	// profile of the script (inputs): whether tunnels are created, and whether a new signing group is proposed
-	// through MsgTransitionGroup (which starts a DKG that nobody completes)
-	// (which starts a DKG that nobody completes), whether a transition to the second genesis group is proposed,
-	// and whether governance lowers tss MaxDESize below the length of existing nonce queues
+	// profile of the run (inputs): whether tunnels are created, whether a new signing group is proposed through
+	// MsgTransitionGroup (which starts a DKG that nobody completes), whether a transition to the second genesis
+	// group is proposed, and whether governance lowers tss MaxDESize below the length of existing nonce queues
 	tunnels, dkg, transition, delimit bool
 	n                                 int            // number of blocks before the export
 	Kinds                             map[string]int // message kinds generated (stats)
